@@ -86,7 +86,7 @@ theorem mem_of_get_ne_nil (s : Store) (k : Bytes) (h : s.get k ≠ []) : k ∈ s
 /-- Every stored value that decodes as a record sits under the key named inside the record and is
     filed in the registry of the record's type. -/
 def RecKeyed (cfg : Cfg) (st : State) : Prop :=
-  ∀ d k info, (st.live d).get k ≠ [] → cfg.dec ((st.live d).get k) = some info → info.id = k ∧ k ≠ []
+  ∀ d k info, (st.live d).get k ≠ [] → cfg.dec ((st.live d).get k) = some info → info.id = k ∧ k ≠ [] ∧ dbOfType info.typ = d
 
 def Flushed (st : State) : Prop := st.trie = st.live
 
@@ -132,7 +132,7 @@ theorem iter_to_id (cfg : Cfg) (st : State) (d : DbId) (m : Miner) (hf : Flushed
 theorem id_to_iter (cfg : Cfg) (st : State) (d : DbId) (id : Bytes) (m : Miner) (hf : Flushed st) (hr : RecKeyed cfg st)
     (hm : getMinerById cfg st d id = some m) : m ∈ iter cfg st d := by
   obtain ⟨hv, info, hdec, rfl⟩ := (getMinerById_some cfg st d id m).mp hm
-  obtain ⟨hid, hne⟩ := hr d id info hv hdec
+  obtain ⟨hid, hne, _⟩ := hr d id info hv hdec
   refine (iter_mem cfg st d _).mpr ⟨id, ?_, ?_⟩
   · rw [hf]; exact (mem_keys _ _).mpr (mem_of_get_ne_nil _ _ hv)
   · rw [hf]
